@@ -270,7 +270,7 @@ impl Compiler {
                     let rest_arr = self.builder.alloc_register()?;
                     self.builder.emit(Op::CreateRestArray {
                         dst: rest_arr,
-                        start_index: i as u8,
+                        start_index: Self::register_span(i, "array pattern elements")?,
                     });
                     self.compile_pattern_binding(&rest.argument, rest_arr, mutable, is_var)?;
                     self.builder.free_register(rest_arr);
@@ -525,7 +525,7 @@ impl Compiler {
                     let rest_arr = self.builder.alloc_register()?;
                     self.builder.emit(Op::CreateRestArray {
                         dst: rest_arr,
-                        start_index: i as u8,
+                        start_index: Self::register_span(i, "array pattern elements")?,
                     });
                     self.compile_pattern_assignment(&rest.argument, rest_arr)?;
                     self.builder.free_register(rest_arr);
